@@ -345,7 +345,9 @@ def gen_bootstrap(rng, consts):
     calls = sorted(rng.below(max(1, tau + 2 * S)) for _ in range(ncall))
     for k, t in enumerate(calls):
         sc.add("at %d boot n w%d" % (t, k))
-    sc.add("at %d boot n wlate" % (end - 2 * S))
+    # a late caller: 12 min after a contact became responsive, 2 min before the end (it may have to wait for a periodic
+    # re-bootstrap round in progress, which takes seconds)
+    sc.add("at %d boot n wlate" % (end - 2 * MIN))
     for t in (1 * S, end // 2, end - 1 * S):
         sc.add("at %d state n" % t)
         sc.add("at %d localaddr n" % t)
